@@ -184,6 +184,7 @@ GA_NOSAN static void *galloc_realloc(struct aws_allocator *a, void *ptr, size_t 
     if (ga.realloc_mode == 1 && ga_round(newsize ? newsize : 1) == ga_round(cur ? cur : 1)) {
         GA_POISON(ptr, ga_round(cur ? cur : 1));
         GA_UNPOISON(ptr, newsize);
+        for (size_t i = cur; i < newsize; ++i) ((uint8_t *)ptr)[i] = (uint8_t)(0xA5 ^ (i * 7)); /* deterministic tail */
         ga.live_bytes += newsize;
         ga.live_bytes -= cur;
         h->size = newsize;
